@@ -1,8 +1,89 @@
 import SLModel.Drv.Util
+import SLModel.Core.Sched
+import SLModel.Core.Handles
 open Lean
 namespace SL.Drv.C05
+open SL.Drv SL.Sched SL.Handles
 
-/-- stub: no model operations for C05 yet -/
-def handle (_req : Json) : Except String Json := .error "C05: not implemented"
+def kindOf (s : String) : Except String Kind :=
+  match s with
+  | "enter" => .ok .enter
+  | "exit" => .ok .exit
+  | "inside" => .ok .inside
+  | "free" => .ok .free
+  | _ => .error s!"C05: unknown event kind {s}"
+
+/-- event = `[thread, kind, name]` -/
+def eventOf (j : Json) : Except String (Event String) := do
+  let a ← j.getArr?
+  match a.toList with
+  | [t, k, n] => return { thread := ← t.getNat?, kind := ← kindOf (← k.getStr?), name := ← n.getStr? }
+  | _ => throw "C05: event must be [thread, kind, name]"
+
+def traceOf (req : Json) : Except String (List (Event String)) := do
+  (← getArr req "trace").toList.mapM eventOf
+
+/-- call of handle `h` (= thread index) -/
+def callOf (h : Nat) (j : Json) : Except String (Call String String) := do
+  let op ← getStr j "op"
+  match op with
+  | "new" => return .new h
+  | "add" => return .add h (getBoolD j "valid" true) (getStrD j "id" "") (getStrD j "body" "")
+  | "delete" => do
+    let ids ← (← getArr j "ids").toList.mapM (·.getStr?)
+    return .delete h ids
+  | "commit" => return .commit h
+  | "rollback" => return .rollback h
+  | "compact" => return .compact
+  | _ => throw s!"C05: unknown call {op}"
+
+def progsOf (req : Json) : Except String (List (List (Nat × Nat × Call String String))) := do
+  let ps ← getArr req "progs"
+  let mut out : List (List (Nat × Nat × Call String String)) := []
+  let mut h := 0
+  for p in ps.toList do
+    let calls ← (← p.getArr?).toList.mapM (callOf h)
+    out := out ++ [(List.range calls.length).zip calls |>.map (fun (k, c) => (h, k, c))]
+    h := h + 1
+  return out
+
+def resJson : Res → Json
+  | .ok => "ok"
+  | .count n => Json.mkObj [("count", n)]
+  | .err => "err"
+
+def opJson : Op String String → Json
+  | .add i d => Json.arr #["add", i, d]
+  | .del i => Json.arr #["del", i]
+
+def handle (req : Json) : Except String Json := do
+  let op ← getStr req "op"
+  match op with
+  | "monitor" =>
+    let tr ← traceOf req
+    let progs ← progsOf req
+    let fb : Json := match firstBreak none 0 tr with | some i => (i : Json) | none => Json.null
+    return Json.mkObj [("disjoint", sectionsDisjoint tr), ("fits", fits progs tr), ("first_break", fb)]
+  | "serial" =>
+    -- serial execution of the programs' calls in the order of the trace's `enter` events
+    let tr ← traceOf req
+    let progs ← progsOf req
+    let pre ← (← getArr req "prefill").toList.mapM (fun j => do
+      let a ← j.getArr?
+      match a.toList with
+      | [i, d] => return ((← i.getStr?), (← d.getStr?))
+      | _ => throw "C05: prefill entry must be [id, body]")
+    let order := enterOrder progs tr
+    let s0 : St String String := Handles.init pre progs.length
+    let s := runSerial s0 (order.map (fun x => x.2.2))
+    return Json.mkObj [
+      ("disjoint", sectionsDisjoint tr), ("fits", fits progs tr),
+      ("order", Json.arr (order.map (fun x => Json.arr #[(x.1 : Json), (x.2.1 : Json)])).toArray),
+      ("results", Json.arr (s.results.map resJson).toArray),
+      ("committed", Json.arr (s.committed.map (fun (p : String × String) => Json.arr #[(p.1 : Json), (p.2 : Json)])).toArray),
+      ("distinct", distinctKeys s.committed),
+      ("wal", Json.arr (s.wal.map opJson).toArray),
+      ("queues", Json.arr (s.queues.map (fun q => Json.arr (q.map opJson).toArray)).toArray)]
+  | _ => throw s!"C05: unknown op {op}"
 
 end SL.Drv.C05
